@@ -157,6 +157,12 @@ HARNESSES = [
       fns=['yaml::chunker::parser::Parser::read_handler'], timeout=1200, min_covers=4),
     H('U-PRS', 'parser', 'read_handler_null_arguments', 'complete', ['C17'], bounds='each of the three pointer arguments null',
       fns=['yaml::chunker::parser::Parser::read_handler'], timeout=300),
+    H('U-PRS', 'parser', 'event_drop_releases_every_event_type', 'complete', ['C17', 'C05'], bounds='all 11 libyaml event types',
+      fns=['yaml::chunker::parser::Event::drop', 'yaml::chunker::parser::Event::event_type'], timeout=300,
+      assumes=['unsafe_libyaml::yaml_event_delete stubbed by a probe that counts calls and checks its argument']),
+    H('U-PRS', 'parser', 'parser_drop_releases_parser_and_read_state', 'complete', ['C17', 'C05'], bounds='-',
+      fns=['yaml::chunker::parser::Parser::drop'], timeout=300,
+      assumes=['unsafe_libyaml::yaml_parser_delete stubbed by a counting probe; release of the read state observed through a Drop probe on the reader it owns']),
     H('U-PRS', 'parser', 'next_event_resurfaces_stashed_reader_error', 'complete', ['C12'], bounds='error stashed or not',
       fns=['yaml::chunker::parser::Parser::next_event', 'yaml::chunker::parser::Parser::read_state_mut'], timeout=600,
       assumes=['Event::parse_next (libyaml yaml_parser_parse) stubbed: the parse failed']),
@@ -275,6 +281,10 @@ HARNESSES = [
     H('U-JSN', 'json', 'json_input_matches_mapping_io_error', 'complete', ['C09', 'C12'], bounds='every slice <= 3 B; source fails during the trial',
       fns=['json::input_matches'], timeout=900, min_covers=1,
       assumes=['serde_json trial stubbed by its assumed contract; serde_json::Error::is_io stubbed by the ghost category of the error the stub produced']),
+    H('U-JSN', 'json', 'json_input_matches_real_syntax_error_is_skipped', 'complete', ['C09', 'C10'], bounds='trial outcome: a REAL serde_json syntax-category error (parser run on the concrete text `!`)',
+      fns=['json::input_matches'], timeout=600, assumes=['match_input_str / match_input_reader replaced by the real serde_json parser on a concrete one-token text']),
+    H('U-JSN', 'json', 'json_input_matches_real_eof_error_is_skipped', 'complete', ['C09', 'C10'], bounds='trial outcome: a REAL serde_json EOF-category error (parser run on the empty text)',
+      fns=['json::input_matches'], timeout=600, assumes=['match_input_str / match_input_reader replaced by the real serde_json parser on a concrete empty text']),
     H('U-JSN', 'json', 'json_output_value_framing_ok', 'complete', ['C05', 'C03', 'C12'], bounds='one document; serializer body stubbed',
       fns=['json::Output::transcode_value'], timeout=600, assumes=['serde_json::to_writer stubbed: writes a marker through the writer or fails']),
     H('U-JSN', 'json', 'json_output_value_framing_body_fails', 'complete', ['C03', 'C12'], bounds='serializer refuses the document',
@@ -414,9 +424,10 @@ PROPERTIES = {
     'C17': dict(
         explanation='Unsafe code xt wrote that can be isolated: Parser::read_handler with a reader that returns any Ok(n) (even n > buffer) or Err: no write beyond buffer_size (canary bytes), '
                     'success => size_read <= buffer_size and destination == what the reader produced, failure => error stashed and destination untouched, null arguments refused; '
-                    'ChunkReader::read with an over-reporting reader: only the clean slice-index panic; both from_u32_unchecked sites receive Unicode scalar values on every path.',
+                    'ChunkReader::read with an over-reporting reader: only the clean slice-index panic; both from_u32_unchecked sites receive Unicode scalar values on every path; '
+                    'Drop for Event releases every event type exactly once (yaml_event_delete), Drop for Parser deletes the parser once and frees the read state once.',
         assumptions=['libyaml passes a valid buffer of buffer_size bytes and a valid size_read pointer'],
-        not_covered=['Parser::new aliasing argument', 'Drop order', 'Event init/delete pairing', 'early drops, leaks', 'all of unsafe-libyaml']),
+        not_covered=['Parser::new aliasing argument', 'Event::parse_next initialisation (MaybeUninit) on the libyaml side', 'early drops', 'all of unsafe-libyaml (only that xt calls yaml_event_delete / yaml_parser_delete exactly once per object is under contract)']),
     'C18': dict(
         explanation='Verus proves, for all byte strings and all depth limits, that the real next_value_size/total_seq_size/total_map_size '
                     '(and rmp::Marker::from_u8) compute exactly mp_value: Ok(n) iff the first value is complete, well-formed and nested at most d deep. '
